@@ -318,6 +318,53 @@ def hello_random_drawn(chk):
             chk.violation(R, inst, P.src, 'DRBG draws (address, length) in this interpreter: %s; the random field is [%d, %d)' % (draws, o, o + 32), key='%s %s' % (R, key))
 
 
+def hello_random_fresh_per_handshake(chk):
+    """The hello random must be new for *every* handshake a context performs - full, resumed, renegotiated - not only be drawn somewhere:
+    a random that is drawn on the full-handshake path only is replayed (or left zero) when a session is resumed, which is exactly when
+    it is the sole fresh input of the key derivation.  Rule over the bytecode: on every path from the start of a handshake (an activation
+    of a word that the entry word's main loop calls and that reaches the send) to the write-blob of the 32-byte field, the DRBG draw
+    covering the field has been executed (helper words that always perform it count)."""
+    from .. import t0, t0ai, t0rules
+    R = 'hello-random-fresh-per-handshake'
+    n = 0
+    for key, fld in (('hs_client', 'eng.client_random'), ('hs_server', 'eng.server_random')):
+        P = t0.Program(key)
+        o = P.layouts.field(P.ctxname, fld)[0]
+        I = t0ai.Interp(P).run_entry()
+        draws = [(e.word, e.pc) for e in I.events if e.name == 'mkrand' and e.args[0].isconst() and e.args[1].isconst()
+                 and o <= e.args[0].c <= o + 4 and e.args[0].c + e.args[1].c == o + 32]
+        # write-blob is an interpreted word around the native write-blob-chunk; a send of the random is `addr-X_random 32 write-blob`
+        wb = set(P.words_calling_native('write-blob-chunk'))
+        sends = []
+        for w, W in P.words.items():
+            seq = list(W.ins.values())
+            for k in range(2, len(seq)):
+                i = seq[k]
+                if i.kind == 'call' and i.arg in wb and seq[k - 1].kind == 'const' and seq[k - 1].arg == 32:
+                    a = seq[k - 2]
+                    v = a.arg if a.kind == 'const' else P.const_word_value(a.arg) if a.kind == 'call' else None
+                    if v == o:
+                        sends.append((w, i.pc))
+        if not sends or not draws:
+            raise AnalysisBroken('%s: send / draw of %s not found in the interpreter events (%d / %d)' % (key, fld, len(sends), len(draws)))
+        # a handshake is one activation of a word called from the entry word's main loop (do-handshake and its kin): the draw must happen
+        # between the start of that activation and the send, wherever inside it
+        entry = P.entries[0][1]
+        sw = set(w for w, _ in sends)
+        tops = [i.arg for i in P.words[entry].ins.values() if i.kind == 'call' and i.arg in P.words and (sw & set(P.reachable_words(i.arg)) or i.arg in sw)]
+        starts = sorted(set(tops)) or sorted(sw)
+        res, _ = t0rules.must_call(P, None, sends, gensites=draws, start_false=starts)
+        for site in sends:
+            n += 1
+            inst = '%s: %s is drawn between the start of the handshake (words %s) and its send in word %d at pc %d' % (key, fld.split('.')[1], starts, site[0], site[1])
+            if res.get(site):
+                chk.ok(R, inst, P.src)
+            else:
+                chk.violation(R, inst, P.src, 'some path from the start of a handshake reaches the send without the DRBG draw (draw sites: %s): handshakes taking '
+                              'that path - e.g. session resumption - reuse the previous random or send zeros' % sorted(set(draws)), key='%s %s' % (R, key))
+    chk.floor('hello random sends', n, 2)
+
+
 def seed_all_bytes(chk):
     """"different seeds give different streams": every byte of an injected seed must reach the DRBG.  Decided part: with the seed
     length fixed to K, a single (non-looping) DRBG update whose length folds to a constant below K necessarily drops seed bytes."""
@@ -523,6 +570,7 @@ def run(tier):
     ephemeral_key_fully_drawn(chk)
     session_id_fresh(chk)
     hello_random_drawn(chk)
+    hello_random_fresh_per_handshake(chk)
     seq_rules(chk)
     seq_encoding(chk)
     return chk.finish()
